@@ -155,8 +155,14 @@ func (s *state) unmarshal(data []byte, fixItem fix.Item) error {
 		}
 
 		startFirstFieldTag := bytes.Index(data[startNoTag:], fix.Delimiter)
+		if startFirstFieldTag == -1 {
+			return fmt.Errorf("no delimiter after the count field of group %s", noTag)
+		}
 		arrayString := data[startNoTag+startFirstFieldTag:]
 		endFirstFieldTag := bytes.Index(arrayString, []byte{'='})
+		if endFirstFieldTag == -1 {
+			return fmt.Errorf("no fields after the count field of group %s", noTag)
+		}
 
 		firstTag := arrayString[:endFirstFieldTag+1]
 		arrayItems := splitGroup(arrayString, firstTag)
